@@ -61,7 +61,7 @@ def configs(tier, seed):
     ]
     if tier == "thorough":
         out += [_cfg((5, 4, 3), (2, 2, 2), "uint16", "uint16", layout="sharded"), _cfg((4, 3, 3, 2), (4, 2, 1), "int32", "uint16"),
-                _cfg((3, 3, 3), (2, 2, 2), "float64", "uint8", cost=8), _cfg((4, 4, 2), (2, 2, 2), "uint64", "uint64", enc="compressed_segmentation", block=(2, 2, 2), cost=30, wall=3000),
+                _cfg((3, 3, 3), (2, 2, 2), "float64", "uint8", cost=8), _cfg((4, 2, 2), (2, 2, 2), "uint64", "uint64", enc="compressed_segmentation", block=(2, 2, 2), cost=30, wall=1500),
                 _cfg((5, 2, 3), (4, 4, 4), "int8", "uint64", full=False, layout="flat")]
     out.append(dict(harness="scaling", o="uint8", cost=1))
     out.append(dict(harness="scaling", o="uint16", cost=1))
